@@ -1111,7 +1111,7 @@ func (e *Exec) convert(st *State, v Value, to types.Type, at ast.Node) Value {
 			if s.T.isInt() && s.T.Val.Cmp(tlo) >= 0 && s.T.Val.Cmp(thi) <= 0 {
 				return Scalar{s.T, to}
 			}
-			if e.truncOK(at) {
+			if e.truncOK(at) || e.convWrapOK(from, to) {
 				return Scalar{wrapTerm2(s.T, to), to}
 			}
 			e.safety(st, "overflow", inRangeTerm(s.T, to), at)
@@ -1284,4 +1284,24 @@ func renameParams(inst, generic *types.Tuple) *types.Tuple {
 		vs = append(vs, types.NewParam(inst.At(i).Pos(), inst.At(i).Pkg(), n, inst.At(i).Type()))
 	}
 	return types.NewTuple(vs...)
+}
+
+// convWrapOK: the contract declares conversions between these two integer types as intentionally
+// wrapping ("wrapok conv:int64->uint64"), independent of the operand's spelling.
+func (e *Exec) convWrapOK(from, to types.Type) bool {
+	if e.contract == nil {
+		return false
+	}
+	fb, ok1 := from.Underlying().(*types.Basic)
+	tb, ok2 := to.Underlying().(*types.Basic)
+	if !ok1 || !ok2 {
+		return false
+	}
+	key := "conv:" + fb.Name() + "->" + tb.Name()
+	for _, w := range e.contract.WrapOK {
+		if w == key {
+			return true
+		}
+	}
+	return false
 }
